@@ -90,6 +90,9 @@ func diffTargets(a, b *Resp) []string {
 // runs inside a synctest bubble with the goroutine scheduling seam active.
 var bubbleOn bool
 
+// uncontrolled counts statically found nondeterminism sources without a seam.
+var uncontrolled int
+
 func s0() SchedConfig {
 	c := SchedConfig{Seed: 1, MapMode: "sorted", ClockMode: "pinned", ClockBase: DefaultClockBase, IdentMode: "pinned"}
 	if bubbleOn {
@@ -273,6 +276,11 @@ func (st *c13State) program(i int, thorough bool) error {
 	scheds := c13Schedules(seed, r0, thorough)
 	// the pure process dimension: the reference schedule again, in other processes
 	scheds = append(scheds, c13Sched{name: "same-schedule-other-process", cfg: s0(), gmp: 1}, c13Sched{name: "same-schedule-other-process", cfg: s0(), gmp: 2})
+	if uncontrolled > 0 {
+		for k := 0; k < 6; k++ {
+			scheds = append(scheds, c13Sched{name: "same-schedule-other-process", cfg: s0(), gmp: k % 3})
+		}
+	}
 	var r0b *Resp
 	for si, sd := range scheds {
 		rq := *req
@@ -410,6 +418,20 @@ func (c *Ctx) candidate13(caseIdx int, prog *Prog, sd c13Sched, target string) {
 			c.logf("candidate (case %d, %s, %s) reproduced neither in a fresh process nor in a warm session: not reported", caseIdx, sd.name, target)
 			c.ev.Count("unconfirmed_candidates", 1)
 		}
+		return
+	}
+	// does the reference schedule already disagree with itself in two fresh
+	// processes? then no schedule is to blame: a source outside every seam
+	self := false
+	for k := 0; k < 4 && !self; k++ {
+		self, _, _ = fails(prog, s0())
+	}
+	if self {
+		c.mu.Lock()
+		c.sigSeen["coarse:"+coarse] = true
+		c.processed++
+		c.mu.Unlock()
+		c.confirmUnseamed(caseIdx, prog, target)
 		return
 	}
 	c.mu.Lock()
